@@ -12,6 +12,8 @@ def sources(tier, seed, n_mod=None, n_expr=None, corpus=True):
     n_expr = n_expr if n_expr is not None else (1200 if quick else 12000)
     for tag, s in seeds.all_seeds() + seeds.VERSION_SENSITIVE + seeds.PY2_SEEDS:
         yield {'shape': 'seed:' + tag, 'src': s}
+    for c in deep_sources():
+        yield c
     r = common.rng(seed, 'union')
     trig = list(triggergen.cases())
     r.shuffle(trig)
@@ -74,3 +76,15 @@ def invalid_sources(seed, n):
     for b in [b'x = 1\x00\n', b'# coding: no-such-codec\nx = 1\n', b'\xff\xfex = 1\n', b'x = "\xc8"\n', b'# coding: ascii\nx = "\xc3\xa9"\n',
               b'\xef\xbb\xbf# coding: latin-1\nx = 1\n', b'def f():\n\treturn 1\n        return 2\n']:
         yield {'shape': 'invalid-bytes', 'src_b64': base64.b64encode(b).decode('ascii')}
+
+
+def deep_sources():
+    """long operator / call / elif chains: compilable (the interpreter copes with a few thousand levels), deep for a recursive tree walker"""
+    for n in (40, 120, 400, 1200):
+        yield {'shape': 'deep.add_strings', 'src': 'x = ' + ' + '.join("'s%d'" % i for i in range(n)) + '\n'}
+        yield {'shape': 'deep.add_names', 'src': 'a = 1\nx = ' + ' + '.join(['a'] * n) + '\n'}
+        yield {'shape': 'deep.call_chain', 'src': 'class B:\n    def f(self):\n        return self\nx = B()' + '.f()' * n + '\n'}
+        yield {'shape': 'deep.elif_pass', 'src': 'v = 0\nif v == -1:\n    pass\n' + ''.join('elif v == %d:\n    pass\n' % i for i in range(n))}
+        yield {'shape': 'deep.elif_assign', 'src': 'v = 0\nif v == -1:\n    w = 1\n' + ''.join('elif v == %d:\n    w = %d\n' % (i, i) for i in range(n))}
+        yield {'shape': 'deep.nested_lists', 'src': 'x = ' + '[' * min(n, 90) + '1' + ']' * min(n, 90) + '\n'}
+        yield {'shape': 'deep.subscript_chain', 'src': 'x = {}\ny = x' + '.get(1, x)' * n + '\n'}
